@@ -8,13 +8,16 @@ P = {
  "C01": ("proof", "Ltoi (coordinate -> offset, per-axis bound check incl. negative coordinates, arity), CalcStrides and CalcStridesColMajor are proved against their postconditions for all lengths and values (unbounded loops with invariants)", "DESIGN.md 5 C01"),
  "C02": ("proof", "CheckSlice, SliceDetails proved for all inputs; AP.S proved in rank-bounded mode (every rank 0..3 quick / 0..4 thorough, all sizes, strides, offsets and slice triples symbolic): error iff an invalid range, start offset, window end, per-axis length = ceil((end-start)/step), stride scaling, axis dropping, frames. Two statement-level clauses fail and are listed as known findings (axis-0 rounding, empty range)", "DESIGN.md 5 C02"),
  "C03": ("proof", "IsMonotonicInts, UnsafePermute (proved for all lengths), AP.T, Dense.T, Dense.UT and Dense.Transpose (rank-bounded: every rank 0..3 quick / 0..4 thorough, all extents and strides symbolic): a transposed view has shape/strides permuted by the axes, invalid or repeated axes yield an error, identity permutation is a no-op error, T followed by UT restores the access pattern, Transpose materialises exactly when a view is pending; the element-moving Transposer engine call is a trusted contract", "DESIGN.md 5 C03"),
+ "C04": ("proof", "the view mechanism and the whole-tensor writes are proved: Dense.Slice returns a fresh tensor whose storage is the window [start,end) of the source's storage (same array, shifted offset, scaled by the element size) with the access pattern computed by AP.S, the source untouched and the mask windowed alike; array.zeroIter/memsetIter write exactly the offsets their iterator yields and leave every other storage position unchanged (unbounded, loop invariants with the ghost iterator sequence), array.Memset fills all; Dense.Zero/Memset on a view write only positions of the view's offset sequence; Clone/SafeT results share no metadata with the source (C19 contracts). The link FlatIterator = offset sequence of its access pattern, the byte-level fill array.Zero, copyDense and storage allocation are trusted contracts; element copies by Clone/Materialize are not under contract", "DESIGN.md 5 C04"),
  "C05": ("proof", "FlatIterator (Next/NextValidity/NextValid/NextInvalid/Reset/Done/SetReverse/SetForward and the specialised next routines) and FlatMaskedIterator proved against a ghost visit-order specification: each call yields the offset of the next coordinate in row-major order (reverse: descending), exactly size elements are yielded before the noop error, Reset restores the initial state", "DESIGN.md 5 C05"),
  "C06": ("proof", "every generated arithmetic and min/max kernel (1224 functions: vector-vector, vector-scalar, scalar-vector, incr, iterator, iterator-incr, recv, scalar helpers, and the vecf32/vecf64 bodies they delegate to) is proved to apply the specified operator to the specified operands at the specified index, with frame; iterator kernels via one-step (loop step) contracts", "DESIGN.md 5 C06"),
+ "C07": ("other", "partial: the decisions that make the option modes safe are proved - operand preparation (prepDataVV/VS/SV) selects the flat kernels only when every tensor involved, including the reuse/increment destination, is contiguous, untransposed, unmasked and in the same data order, and otherwise hands each kernel the iterator of its own tensor at position 0; reuseCheckShape copies the expected shape and leaves no pooled slice referenced; the incr/recv kernels add into / write only the destination (C06 schemas); Float64Engine.FMA pairs data and iterators like the default engine. The mode switch inside the generated StdEng methods and option parsing (closures) are not under contract", "DESIGN.md 5 C07"),
  "C08": ("proof", "Sum, Prod, Reduce (left folds) and Argmax/Argmin (first index of the extreme, strict comparison) kernels proved against recursive fold specifications for all lengths", "DESIGN.md 5 C08"),
  "C10": ("other", "partial: the shape calculators Shape.Concat and Shape.Repeat are proved (result shape per axis, operands unchanged, refusal of misfitting operands and bad axes, repeat counts copied not retained); the element-moving code (stacking, concatenation by slice-and-assign, repeat kernels) is engine glue over reflection and iterators and is not under contract", "DESIGN.md 5 C10"),
  "C11": ("proof", "every generated comparison kernel (1044 functions: bool and same-type results, vv/sv/vs, iterator variants) proved to deliver the truth value of Go's comparison of the specified operands in operand order, operands unchanged", "DESIGN.md 5 C11"),
  "C12": ("proof", "every generated unary kernel and map kernel (315 functions) proved against the specified scalar function per operation and element type (math/math32/cmplx routines as uninterpreted symbols named after the routine)", "DESIGN.md 5 C12"),
  "C13": ("proof", "Shape.S and AP.S proved against the same per-axis specification in rank-bounded mode (so the calculator agrees with execution); CalcStrides proved; CheckSlice/SliceDetails proved", "DESIGN.md 5 C13"),
+ "C15": ("other", "partial: each generated masking predicate (MaskedEqual, NotEqual, Greater, GreaterEqual, Less, LessEqual, Inside, Outside; 13 element types each) is proved to mark exactly the elements satisfying Go's comparison - replacing a soft mask, or-ing into a hard one - with data unchanged (unbounded loop invariants); a slice carries the matching window of its source's mask (Dense.Slice); the validity-aware iterator kernels skip invalid positions (C06/C11/C12 iterator schemas) and FlatMaskedIterator is covered by C05. MaskedValues, mask reductions, run/edge finders and mask movement under transposition are not under contract", "DESIGN.md 5 C15"),
  "C16": ("other", "partial: the order flag algebra (HasSameOrder, setDataOrder, MakeDataOrder as bit-vector facts), column-major stride computation (CalcStridesColMajor, AP.calcStrides both orders), preservation of the order bits by AP.S and the contiguity flag it derives from the storage-outermost axis are proved; operations on column-major operands go through engine glue that is not under contract", "DESIGN.md 5 C16"),
  "C17": ("proof", "union of all schema instantiations: 2651 generated functions each satisfy the one type-generic contract schema of their family; structurally identical VCs across element types are solved once", "DESIGN.md 5 C17"),
  "C19": ("proof", "ownership discipline as per-function contracts over ghost state lib(array) in {caller, library, pooled}: T/SafeT/RollAxis/Shape.Repeat/reuseCheckShape/SetShape never retain, mutate or pool a caller slice; Clone/SafeT/AP.Clone/CloneTo/Shape.Clone results share no metadata array with their source; UT/Transpose/reuseCheckShape leave no reference to a pooled slice in a live tensor. Pools (BorrowInts/ReturnInts, borrowDense) and storage allocation are trusted contracts; histories are covered by each operation preserving the ownership invariant, not by exploring sequences", "DESIGN.md 5 C19"),
